@@ -428,6 +428,9 @@ def run(tier, seed):
         core.validate_and_report(chk, 'MC_ConnLife', OBS, ACTIONS, batch, trace_cfg(params), INVS, 'c09', params,
                                  'random eps=%r' % (eps,), nproc=6, extra={'MC_ConnLife.tla': mc_module(eps)})
     chk.sample({'recorded': [a for a, s in batch[0]][:8]})
+    # what "the bus address list" means: address strings -> endpoints to try, in order (spec/Address.tla)
+    from . import address
+    address.stage(chk, rng, thorough)
     tr = [list(x) for x in batch[0]]
     tr[-1] = (tr[-1][0], dict(tr[-1][1], nfired=tr[-1][1]['nfired'] + 1))
     rej, _ = core.validate_traces('MC_ConnLife', OBS, [[tuple(x) for x in tr]], ACTIONS, cfg_consts=trace_cfg(params), nproc=1,
